@@ -776,3 +776,88 @@ func R21Balance(c *Ctx) {
 		}
 	}
 }
+
+// R21TemplateEnd — the template token stream ends with an end token and the cursor never moves past it.
+func R21TemplateEnd(c *Ctx) {
+	const rule = "R21-template-end"
+	c.R.Rule(rule, "the invariant the reviewed bound of templateParser.Peek rests on: (a) the Tokens of every templateParts built in hclsyntax come from an append whose last element is a *templateEndToken; (b) every store to templateParser.pos is the initial 0 or pos+1 on the path where the token just peeked is not a *templateEndToken — so pos stays at or before the end token and Tokens[pos] exists", 2)
+	pkg := PkgYaotl + "/hclsyntax"
+	nA, nB := 0, 0
+	for _, fn := range c.P.ModuleFuncs(func(p string) bool { return p == pkg }) {
+		for _, b := range fn.Blocks {
+			for _, in := range b.Instrs {
+				st, ok := in.(*ssa.Store)
+				if !ok {
+					continue
+				}
+				t, f, _, ok := FieldOf(st.Addr)
+				if !ok {
+					continue
+				}
+				switch {
+				case t == pkg+".templateParts" && f == "Tokens":
+					nA++
+					construct := "templateParts.Tokens = append(…, &templateEndToken{})"
+					good := false
+					if ap, isCall := st.Val.(*ssa.Call); isCall && CalleeName(ap) == "builtin.append" && len(ap.Call.Args) == 2 {
+						if sl, isSl := ap.Call.Args[1].(*ssa.Slice); isSl {
+							if al, isAl := sl.X.(*ssa.Alloc); isAl {
+								// the last element stored into the variadic array
+								last := int64(-1)
+								var lastVal ssa.Value
+								for _, r := range *al.Referrers() {
+									if ia, isIA := r.(*ssa.IndexAddr); isIA {
+										if k, isC := ConstInt(ia.Index); isC && k > last {
+											for _, r2 := range *ia.Referrers() {
+												if s2, isSt := r2.(*ssa.Store); isSt && s2.Addr == ssa.Value(ia) {
+													last, lastVal = k, s2.Val
+												}
+											}
+										}
+									}
+								}
+								if mi, isMI := lastVal.(*ssa.MakeInterface); isMI && strings.HasSuffix(mi.X.Type().String(), ".templateEndToken") {
+									good = true
+								}
+							}
+						}
+					}
+					if good {
+						c.R.Ok(rule, FuncShort(fn), construct, c.pos(st.Pos()), "the stream is closed by an end token", true)
+					} else {
+						c.R.Bad(rule, FuncShort(fn), construct, c.pos(st.Pos()), "a templateParts is built whose token list is not visibly terminated by a *templateEndToken: templateParser.Peek can index past the end")
+					}
+				case t == pkg+".templateParser" && f == "pos":
+					nB++
+					construct := "templateParser.pos advances only past non-end tokens"
+					if k, isC := ConstInt(st.Val); isC && k == 0 {
+						c.R.Ok(rule, FuncShort(fn), construct, c.pos(st.Pos()), "initial position", true)
+						continue
+					}
+					good := false
+					if bo, isB := st.Val.(*ssa.BinOp); isB && bo.Op == token.ADD {
+						if k, isC := ConstInt(bo.Y); isC && k == 1 && DerivesFromNarrowCalls(bo.X, IsFieldLoad(pkg+".templateParser", "pos")) {
+							for _, fa := range FactsAt(b) {
+								ex, isEx := fa.Cond.(*ssa.Extract)
+								if !isEx || ex.Index != 1 || fa.Truth {
+									continue
+								}
+								if ta, isTA := ex.Tuple.(*ssa.TypeAssert); isTA && strings.HasSuffix(ta.AssertedType.String(), ".templateEndToken") {
+									good = true
+								}
+							}
+						}
+					}
+					if good {
+						c.R.Ok(rule, FuncShort(fn), construct, c.pos(st.Pos()), "incremented only when the current token is not the end token", true)
+					} else {
+						c.R.Bad(rule, FuncShort(fn), construct, c.pos(st.Pos()), "the cursor is moved by something other than +1 behind a non-end token: it can pass the end token and Peek indexes out of range")
+					}
+				}
+			}
+		}
+	}
+	if nA == 0 || nB == 0 {
+		c.R.Anchor(rule, "stores to templateParts.Tokens and templateParser.pos")
+	}
+}
